@@ -270,6 +270,17 @@ func genC14(seed uint64) *C14Case {
 	if w.get(cs.Src) == nil {
 		return genC14(seed*0x9e3779b97f4a7c15 + 1)
 	}
+	if s := w.get(cs.Src); (s.IsView() || tensor.VerifInternals(s).HasOld) && r.Intn(5) == 0 {
+		// a clone of a view or of a lazily transposed tensor: a tensor of its own that keeps the source's layout
+		// (strides with gaps over a private copy of the window, or permuted strides with the saved access pattern)
+		o := Op{Name: "Clone", In: []int{cs.Src}, Out: g.newSlot()}
+		w.Exec(&o)
+		if w.get(o.Out) != nil {
+			cs.Build = append(cs.Build, o)
+			cs.Src = o.Out
+			cs.Layout += "+clone"
+		}
+	}
 	b2 := cs.Build[0]
 	b2.F = float64(int(b2.F)%900 + 3)
 	b2.Out = 900
@@ -539,7 +550,9 @@ func execC14(cs *C14Case, replay bool) *c14Result {
 				res.outcome, res.detail = "unjudgeable", diff
 			} else if diff != "" {
 				res.outcome, res.detail = "decoded-different", diff
-			} else if diff = storageOrderConsistent(d); diff != "" {
+			} else if diff = storageOrderConsistent(d); diff != "" && storageOrderConsistent(src) == "" {
+				// (a source that has this inconsistency itself - a full-range slice of a lazily transposed tensor
+				// keeps the permuted strides without the saved access pattern - is reproduced faithfully)
 				res.outcome, res.detail = "decoded-different", diff
 			} else {
 				res.outcome = "equal"
